@@ -48,7 +48,7 @@ ASSUMPTIONS = [
     "the gradient axis of pydrex's standard simple_shear_2d('Y', 'X') set-up",
 ]
 BOUND = {
-    "quick": "n_grains in {1,2,3,4,24,50,1000}; |FRAME| = 27 (24 cube + 3 generic); shear strains gamma in {0.1,0.5,2}",
+    "quick": "n_grains in {1,2,3,4,24,50,1000}; |FRAME| = 27 (24 cube + 3 generic); shear strains gamma in {0.1,0.5,2,4,10}",
     "thorough": "n_grains in {1,2,3,4,5,24,50,1000,10000}; |FRAME| = 30 (24 cube + 6 generic)",
 }
 
@@ -57,7 +57,7 @@ TOL = 1e-12  # rounding tolerance on normalised scalars (statement)
 GAP = 1e-6  # relative eigenvalue gap below which a principal axis is treated as not unique
 AXTOL = 1e-13  # eigenvector tolerance = TOL + AXTOL / (relative gap); observed max err * gap on the unchanged tree: 3.4e-15
 ISO = 1e-9  # (lambda1 - lambda3)/N below this = "exactly isotropic" (coaxial index undefined)
-GAMMAS = (0.1, 0.5, 2.0)
+GAMMAS = (0.1, 0.5, 2.0, 4.0, 10.0)
 SHEAR_PAIRS = [(0, 2), (0, 1), (1, 0), (1, 2), (2, 0), (2, 1)]
 BA_PAIRS = [("default", "default")] + [(p, q) for p in AXES for q in AXES if p != q]
 
@@ -606,6 +606,19 @@ def run_fse(key):
         helper = float(u.angle_fse_simpleshear(g / 2))
         res["n"] += 1
         obs.append(helper)
+        if float(g / 2).is_integer():
+            # a whole-number strain given as a Python int, a numpy integer or an integer array
+            # is the same strain (seed C13f)
+            s_ = int(g / 2)
+            for tag, arg in (("int", s_), ("int64", np.int64(s_)), ("int32", np.int32(s_)), ("int_array", np.array([s_, s_]))):
+                count("fse_helper_dtype")
+                res["n"] += 1
+                try:
+                    got = np.asarray(u.angle_fse_simpleshear(arg), float).ravel()
+                    if not np.all(np.abs(got - helper) <= 1e-9):
+                        V("fse_helper_dtype", {"helper_float_deg": helper, "helper_typed_deg": got.tolist(), "strain": s_}, typed=tag)
+                except Exception as ex:
+                    V("fse_helper_dtype", {"exception": type(ex).__name__, "strain": s_}, typed=tag)
         closed = 90.0 - 0.5 * np.degrees(np.arctan2(2.0, g))  # tan(2 theta) = 2/g from the shear direction
         for qn, Q in alph.FRAME.items():
             F = Q @ F0 @ Q.T
